@@ -15,9 +15,14 @@ def run_lemmas(REG, prop, timeout_ms):
         except Exception as ex:
             out.append({"name": name, "status": "unknown", "seconds": 0.0, "detail": "builder error %r" % ex})
             continue
-        for gname, hyps, goal in goals:
+        for g in goals:
+            # (goalname, hyps, goal[, opts]); opts["z3_timeout_ms"] bounds the first (z3 API) attempt so that goals known
+            # to need the cvc5 fallback (string theory) do not sit out the whole budget first
+            gname, hyps, goal = g[0], g[1], g[2]
+            opts = g[3] if len(g) > 3 else {}
+            t0 = time.time()
             s = z3.Solver()
-            s.set("timeout", timeout_ms)
+            s.set("timeout", min(timeout_ms, opts.get("z3_timeout_ms", timeout_ms)))
             for h in hyps:
                 s.add(h)
             s.add(z3.Not(goal))
